@@ -368,6 +368,164 @@ def m_lock_ctor(I, st, fr, n, this, args, an):
     return [(st, VOID)]
 
 
+# ---- std::array<T, N>: the elements live directly under the object's path (as for a C array member)
+def _arr_this(this):
+    if this is None:
+        return None
+    if this[0] == 'p':
+        return (this[1], this[2])
+    if this[0] == 'obj':
+        return this[1]
+    return None
+
+
+def _arr_len(I, n):
+    """element count of the std::array a member call is made on, from the object type (size / element size)"""
+    on = n.get('obj') if isinstance(n, dict) else None
+    if on is None and isinstance(n, dict) and n.get('args'):
+        on = n['args'][0]
+    t = I.T(on) if on is not None else None
+    if t and t.get('k') == 'ptr':
+        t = I.prog.type(t['to'])
+    s_ = (t or {}).get('s', '')
+    import re as _re
+    m_ = _re.search(r',\s*(\d+)\s*>\s*$', s_.replace('UL', '').replace('ul', ''))
+    return int(m_.group(1)) if m_ else None
+
+
+def m_arr_begin(I, st, fr, n, this, args, an):
+    l = _arr_this(this)
+    return [(st, P(l[0], l[1] + (0,)) if l else ('ptop', 'array', False))]
+
+
+def m_arr_end(I, st, fr, n, this, args, an):
+    l = _arr_this(this)
+    k = _arr_len(I, n)
+    return [(st, P(l[0], l[1] + (k,)) if l and k is not None else ('ptop', 'array-end', False))]
+
+
+def m_arr_size(I, st, fr, n, this, args, an):
+    k = _arr_len(I, n)
+    return [(st, C(k) if k is not None else R(0, 1 << 30))]
+
+
+def m_arr_index(I, st, fr, n, this, args, an):
+    l = _arr_this(this)
+    if l is None or not args:
+        return [(st, ('ptop', 'array-elem', False))]
+    i = args[0]
+    return [(st, P(l[0], l[1] + ((i[1] if i[0] == 'c' else i),)))]
+
+
+def m_arr_fill(I, st, fr, n, this, args, an):
+    l = _arr_this(this)
+    k = _arr_len(I, n)
+    if l and k is not None and args:
+        for i in range(k):
+            st.mem[(l[0], l[1] + (i,))] = args[0]
+    return [(st, VOID)]
+
+
+def m_arr_assign(I, st, fr, n, this, args, an):
+    """array = array (the implicit member-wise copy assignment)"""
+    l = _arr_this(this)
+    src = _arr_this(args[0]) if args else None
+    if l is None or src is None:
+        return None
+    I.copy_object(st, src, l)
+    return [(st, this)]
+
+
+def m_arr_rbegin(I, st, fr, n, this, args, an):
+    r = m_arr_end(I, st, fr, n, this, args, an)[0][1]
+    return [(st, ('opaque', 'rit', r))]
+
+
+def m_arr_rend(I, st, fr, n, this, args, an):
+    r = m_arr_begin(I, st, fr, n, this, args, an)[0][1]
+    return [(st, ('opaque', 'rit', r))]
+
+
+def _rit_of(I, st, v):
+    """the reverse-iterator value held by v (a value, or the location of an object holding one)"""
+    if v is None:
+        return None, None
+    if v[0] == 'opaque' and len(v) > 2 and v[1] == 'rit':
+        return v, None
+    l = _arr_this(v)
+    if l is not None:
+        x = st.mem.get(l)
+        if x is not None and x[0] == 'opaque' and len(x) > 2 and x[1] == 'rit':
+            return x, l
+    return None, None
+
+
+def m_rit_ctor(I, st, fr, n, this, args, an):
+    l = _arr_this(this)
+    v, _ = _rit_of(I, st, args[0]) if args else (None, None)
+    if l is not None and v is not None:
+        st.mem[l] = v
+        return [(st, VOID)]
+    return None
+
+
+def m_rit_deref(I, st, fr, n, this, args, an):
+    v, _ = _rit_of(I, st, this)
+    if v is None or v[2][0] != 'p':
+        return None
+    p = v[2]
+    last = p[2][-1]
+    prev = (last - 1) if isinstance(last, int) else binop('-', last, C(1), st.sym)
+    return [(st, P(p[1], p[2][:-1] + (prev,)))]
+
+
+def m_rit_inc(I, st, fr, n, this, args, an):
+    v, l = _rit_of(I, st, this)
+    if v is None or l is None or v[2][0] != 'p':
+        return None
+    p = v[2]
+    last = p[2][-1]
+    prev = (last - 1) if isinstance(last, int) else binop('-', last, C(1), st.sym)
+    st.mem[l] = ('opaque', 'rit', P(p[1], p[2][:-1] + (prev,)))
+    return [(st, this)]
+
+
+def _rit_cmp(neg):
+    def m(I, st, fr, n, this, args, an):
+        a, _ = _rit_of(I, st, args[0]) if args else (None, None)
+        b, _ = _rit_of(I, st, args[1]) if len(args) > 1 else (None, None)
+        if a is None or b is None:
+            return None
+        pa, pb = a[2], b[2]
+        if pa[0] == 'p' and pb[0] == 'p' and pa[1] == pb[1] and pa[2][:-1] == pb[2][:-1]:
+            x, y = pa[2][-1], pb[2][-1]
+            c = compare('==', C(x) if isinstance(x, int) else x, C(y) if isinstance(y, int) else y, st.sym)
+            if c is not None:
+                return [(st, C(int(c != neg)))]
+        return [(st, R(0, 1))]
+    return m
+
+
+def m_copy_n(I, st, fr, n, this, args, an):
+    """std::copy_n(first, count, out): element-wise copy, returns out + count"""
+    src, cnt, dst = args[0], args[1], args[2]
+    if src[0] == 'p' and dst[0] == 'p' and cnt[0] == 'c' and 0 <= cnt[1] <= 1024 and src[2] and dst[2] \
+            and isinstance(src[2][-1], int) and isinstance(dst[2][-1], int):
+        I.emit('memcpy', st, node=n, dst=dst, src=src, size=cnt)
+        vals = [I.load(st, (src[1], src[2][:-1] + (src[2][-1] + i,))) for i in range(cnt[1])]
+        for i, v in enumerate(vals):
+            I.store(st, (dst[1], dst[2][:-1] + (dst[2][-1] + i,)), v, node=n)
+        return [(st, P(dst[1], dst[2][:-1] + (dst[2][-1] + cnt[1],)))]
+    return None
+
+
+def m_copy(I, st, fr, n, this, args, an):
+    b, e, dst = args[0], args[1], args[2]
+    if b[0] == 'p' and e[0] == 'p' and b[1] == e[1] and b[2][:-1] == e[2][:-1] and isinstance(b[2][-1], int) and isinstance(e[2][-1], int):
+        return m_copy_n(I, st, fr, n, this, [b, C(e[2][-1] - b[2][-1]), dst], an)
+    return None
+
+
 # ---- std::unique_ptr: one owned pointer in the pseudo-field $ptr
 def _uptr_loc(this):
     if this is None:
@@ -591,6 +749,14 @@ STD_MODELS = {
     'exit': m_exit, 'std::exit': m_exit, 'abort': m_exit,
     'rand': m_top, 'srand': m_void, 'time': m_top, 'atoi': m_atoi, 'std::atoi': m_atoi,
     'getopt_long': m_getopt, 'stat': m_top,
+    'std::array::data': m_arr_begin, 'std::array::begin': m_arr_begin, 'std::array::cbegin': m_arr_begin,
+    'std::array::end': m_arr_end, 'std::array::cend': m_arr_end, 'std::array::size': m_arr_size,
+    'std::array::operator[]': m_arr_index, 'std::array::at': m_arr_index, 'std::array::fill': m_arr_fill,
+    'std::array::operator=': m_arr_assign, 'std::array::array': m_arr_assign,
+    'std::array::rbegin': m_arr_rbegin, 'std::array::rend': m_arr_rend,
+    'std::reverse_iterator::reverse_iterator': m_rit_ctor, 'std::reverse_iterator::operator*': m_rit_deref,
+    'std::reverse_iterator::operator++': m_rit_inc, 'std::operator!=': _rit_cmp(True), 'std::operator==': _rit_cmp(False),
+    'std::copy_n': m_copy_n, 'std::copy': m_copy,
     'std::unique_ptr::unique_ptr': m_uptr_ctor, 'std::unique_ptr::get': m_uptr_get, 'std::unique_ptr::operator->': m_uptr_get,
     'std::unique_ptr::release': m_uptr_release, 'std::unique_ptr::reset': m_uptr_drop, '~std::unique_ptr': m_uptr_drop,
     'std::unique_ptr::~unique_ptr': m_uptr_drop, 'std::unique_ptr::operator bool': m_uptr_bool,
